@@ -754,6 +754,11 @@ func exploreBare(c *vx.Ctx, props string, maxDev int, bfsDepth int, st *exploreS
 		}
 	}
 	c.Extra["bare_sm_slow_strategy_executions"] = nSlow
+	// A restart answered with the committed header where the network has committed the height meanwhile (catch-up),
+	// at every script position.
+	for pos := 0; pos <= len(script); pos++ {
+		jobs = append(jobs, job(fmt.Sprintf("%d:+Restart", pos), fmt.Sprintf("%d:+ENT:ch", pos)))
+	}
 	c.Extra["bare_sm_script_len"] = len(script)
 	c.Extra["bare_sm_alphabet"] = len(alpha)
 	c.Extra["bare_sm_single_deviations"] = len(singles)
